@@ -298,6 +298,23 @@ pub fn exec_c05(plan: &C05Plan, st: &mut Stats) -> Option<Violation> {
         if ob != twin.after_v {
             return viol("EINTR is not invisible", format!("{} interrupted reads: {}", fired, diff_obs(&ob, &twin.after_v)));
         }
+        // ... and a burst: sixty interrupted reads in a row somewhere inside the picture
+        let mut m = prep(plan).ok()?;
+        m.feed(v);
+        let at = 1 + (scen % (twin.reads_v.max(1)));
+        for k in 0..60 {
+            m.arm(at + k, SrcFault::Eintr);
+        }
+        let o = m.decode();
+        st.inc("evaluations");
+        st.add("fault.src_Eintr.fired", m.pipe.lock().unwrap().fired.iter().map(|f| f.1).sum::<u64>());
+        if !matches!(o, Outcome::Panic(_)) {
+            let ob = observe(&m, &o);
+            if ob != twin.after_v {
+                return viol("EINTR is not invisible", format!("a burst of 60 interrupted reads at read {at}: {}", diff_obs(&ob, &twin.after_v)));
+            }
+            st.inc("probe.eintr_burst_invisible");
+        }
     }
 
     // ---- 3. every split point ----------------------------------------------------------
